@@ -21,7 +21,10 @@ let comp_disk : Registry.comp = fun params ->
   let kinds = List.nth params 0 and exact = List.nth params 1 in
   let n = String.length kinds in
   let cds = List.init n (fun i ->
-      if kinds.[i] = 'a' then Disk.opus_codec else Disk.vp8_codec) in
+      match kinds.[i] with
+      | 'a' -> Disk.opus_codec
+      | 'h' -> Disk.h264_codec
+      | _ -> Disk.vp8_codec (* '9': VP9 is not modelled, its ops are not compared *)) in
   let st = ref (Disk.new_rec cds) in
   let caches = Array.init n (fun _ -> Hashtbl.create 64) in
   let files : Disk.fev list ref = ref [] in
